@@ -9,12 +9,14 @@ def cubes(tier):
         out = [dict(ops="S", cls=c, link=l, state=st, names=n, prop="C02", _w=2) for c, l, st in COMBOS for n in (0, 1)]
         out += [dict(ops="SX", cls="local", link="copy", names=2, prop="C02", depth=[2, 2, 0], _w=3),
                 dict(ops="U", cls="local", link="copy", names=1, prop="C02", depth=[0, 0, 1], _w=3),
-                dict(ops="S", cls="local", link="copy", names=0, prop="C02", depth=[1, 2, 0], trailing=True, _w=2)]
+                dict(ops="S", cls="local", link="copy", names=0, prop="C02", depth=[1, 2, 0], trailing=True, _w=2),
+                dict(ops="S", cls="local", link="copy", names=3, prop="C02", depth=[0, 0, 0], _w=2)]  # dot-files at the top of the tree
         return out
     out = [dict(ops=o, cls=c, link=l, state=st, names=n, prop="C02", depth=d, _w=3)
            for o in ("S", "SX", "U") for c in ("local", "base") for l in ("copy", "hardlink", "symlink") for st in (False, True)
            for n, d in ((0, [0, 1, 2]), (1, [2, 2, 0]), (2, [1, 1, 1]))]
     out += [dict(ops="S", cls=c, link="copy", names=n, prop="C02", depth=[1, 2, 0], trailing=True, _w=2) for c in ("local", "base") for n in (0, 1, 2)]
+    out += [dict(ops=o, cls=c, link="copy", names=3, prop="C02", depth=d, _w=2) for o in ("S", "U") for c in ("local", "base") for d in ([0, 0, 0], [0, 0, 1])]
     return out
 
 
